@@ -39,7 +39,9 @@ def streams(tier, rng, P, only=None, cases=None):
             # (an argument position may be left empty: it still holds its place, the parameter is the empty text)
             if npar >= 2 and rng.random() < 0.2: args[rng.randrange(npar)] = ""
             call = call0 + ("(%s)" % ",".join(("{%s}" % a) if (a or rng.random() < 0.3) else "" for a in args) if npar else "")
-            site = rng.choice(["%s", "%s", "[2 %s]", "Sub{ %s } r", "o5 %s v100", "#Outer={ %s r} #Outer"])
+            site = rng.choice(["%s", "%s", "[2 %s]", "Sub{ %s } r", "o5 %s v100", "#Outer={ %s r} #Outer",
+                               # (… as a statement inside a function that is itself called inside an expression)
+                               "Function FQ(){ %s d Result=1 } INT XQ=FQ() e", "Function GQ(){ %s Result=3 } l8 IF(GQ()=3){ g }"])
             if npar == 0 and rng.random() < 0.25:
                 # a reference without arguments at the end of a line: what the next line begins with (a tuplet, a velocity step) is the next command
                 site = rng.choice(["%s\n{f g a}4 b", "%s // play it\n{c d}4 e", "%s\n(e) f", "l8 %s\n{c}2 d", "%s \n\n{g a}2", "%s /* x */\n( c"])
